@@ -1483,6 +1483,9 @@ LEGACY_GET = {
     'signing_channel_id': lambda c: c.signing_channel_id,
     'signature': lambda c: bytes(c.signature).hex(),
     'signature_type': lambda c: c.signature_type,
+    # the bytes a legacy channel signature was made over: the v1 message without its publisherSignature field (what
+    # Output.get_signature_digest hashes for a version-1 claim); a decoded signed legacy claim that misreports them can never validate
+    'signed_payload': lambda c: bytes(c.unsigned_payload).hex(),
     'description_prefix': lambda c: c.stream.description,
     'description_suffix': lambda c: c.stream.description,
 }
@@ -1528,6 +1531,7 @@ def legacy_v1_expect(data):
         sig = _msg(data, 5)
         e.update({'is_signed': True, 'signature': pbwire.last(sig, 3, b'').hex(), 'signing_channel_id': pbwire.last(sig, 4, b'').hex(),
                   'signature_type': KEYTYPES[pbwire.last(sig, 2, 0)]})
+        e['signed_payload'] = pbwire.encode([f for f in pbwire.decode(data) if f[0] != 5]).hex()
     else:
         e['is_signed'] = False
     return e
